@@ -21,6 +21,9 @@
 #include "libs/acn/E131Inflator.h"
 #include "libs/acn/DMPE131Inflator.h"
 #include "libs/acn/E131DiscoveryInflator.h"
+#include "libs/acn/E133Inflator.h"
+#include "libs/acn/LLRPInflator.h"
+#include "libs/acn/RDMInflator.h"
 #undef private
 #undef protected
 #include "h_common.h"
@@ -51,10 +54,16 @@ struct Twin {
   std::auto_ptr<DMPE131Inflator> dmp;
   std::auto_ptr<E131DiscoveryInflator> disc;
   std::auto_ptr<ola::acn::IncomingUDPTransport> transport;
+  // E1.33 / LLRP header decoders (not part of E131Node; added to the root so that they are exercised)
+  ola::acn::E133Inflator e133;
+  ola::acn::LLRPInflator llrp;
+  ola::acn::RDMInflator rdm133;
+  ola::acn::RDMInflator rdmllrp;
   vector<unsigned> unis;
   vector<DmxBuffer*> bufs;
   string events;
 
+  Twin() : rdm133(ola::acn::VECTOR_FRAMING_RDMNET), rdmllrp(ola::acn::VECTOR_LLRP_RDM_CMD) {}
   ~Twin() { for (size_t i = 0; i < bufs.size(); i++) delete bufs[i]; }
   void ev(const string &s) { events += (events.empty() ? "" : "+") + s; }
   void hit(unsigned uni) { ev("d" + vh::str(uni)); }
@@ -63,6 +72,14 @@ struct Twin {
                vh::str(static_cast<unsigned>(p.last_page)) + ".";
     for (size_t i = 0; i < p.universes.size(); i++) s += (i ? "_" : "") + vh::str(static_cast<unsigned>(p.universes[i]));
     ev(s);
+  }
+  void on_rdm133(const HeaderSet *headers, const string &msg) {
+    const ola::acn::E133Header &h = headers->GetE133Header();
+    ev("r" + vh::str(h.Sequence()) + "." + vh::str(static_cast<unsigned>(h.Endpoint())) + "." + vh::hex(msg));
+  }
+  void on_llrp(const HeaderSet *headers, const string &msg) {
+    const ola::acn::LLRPHeader &h = headers->GetLLRPHeader();
+    ev("l" + cid_s(h.DestinationCid()) + "." + vh::str(h.TransactionNumber()) + "." + vh::hex(msg));
   }
   void setup(const string &spec) {
     vector<string> hs = vh::split(spec, ',');
@@ -76,6 +93,12 @@ struct Twin {
     e131.AddInflator(dmp.get());
     e131.AddInflator(disc.get());
     rev2.AddInflator(dmp.get());
+    root.AddInflator(&e133);
+    root.AddInflator(&llrp);
+    e133.AddInflator(&rdm133);
+    llrp.AddInflator(&rdmllrp);
+    rdm133.SetGenericRDMHandler(ola::NewCallback(this, &Twin::on_rdm133));
+    rdmllrp.SetGenericRDMHandler(ola::NewCallback(this, &Twin::on_llrp));
     for (size_t i = 1; i < hs.size(); i++) {
       vector<string> kv = vh::split(hs[i], ':');
       unis.push_back(vh::num(kv[0]));
@@ -107,15 +130,18 @@ struct Twin {
 
 string do_acn(const vector<string> &a) {
   if (a.size() < 3) return "bad-args";
-  Twin t[2];
+  Twin t[3];
   t[0].setup(a[1]);
   t[1].setup(a[1]);
+  t[2].setup(a[1]);
   c06::Trace tr;
   for (size_t k = 2; k < a.size(); k++) {
     vector<uint8_t> d = vh::unhex(a[k]);
     string o0 = t[0].deliver(c06::POISON[0], d);
     string o1 = t[1].deliver(c06::POISON[1], d);
-    tr.add(o0, o1);
+    string o2;
+    { c06::PrevMode pm; o2 = t[2].deliver(c06::POISON[2], d); }
+    tr.add3(o0, o1, o2);
   }
   return tr.result();
 }
